@@ -494,6 +494,10 @@ def normalize_model_rec(r):
     r.setdefault("expect_solved", False)
     r.setdefault("k_none", False)
     r.setdefault("documented_incompat", False)
+    r.setdefault("sol_list", [])
+    r.setdefault("sol_list_types", [])
+    r.setdefault("nodes", [])
+    r.setdefault("edges", [])
     r.setdefault("proutes", [])
     r.setdefault("pweights", [])
     # TLC cannot read JSON null / floats: make sure none slipped through
